@@ -18,6 +18,16 @@ os.environ["TZ"] = LOCAL_ZONE
 _time.tzset()
 LOCAL = zoneinfo.ZoneInfo(LOCAL_ZONE)
 
+
+
+def set_local(zone: str = LOCAL_ZONE) -> None:
+    """Switch the process-local time zone (TZ + tzset) - a DST zone for runs that cross a transition; default: back to Kathmandu."""
+    global LOCAL
+    os.environ["TZ"] = zone
+    _time.tzset()
+    LOCAL = zoneinfo.ZoneInfo(zone)
+
+
 UTC = dtm.timezone.utc
 EPOCH = dtm.datetime(1970, 1, 1, tzinfo=UTC)
 US = dtm.timedelta(microseconds=1)
